@@ -40,6 +40,7 @@ Inductive vcase :=
 | CReported (v : ver) (held requested observed : list string)
 | CFieldWrite (cls : string) (v : ver) (set_tags emitted : list string) (raised : bool)
 | CFieldRead (cls : string) (v : ver) (tag : string) (accepted : bool)
+| CStruct (meth cls : string) (v : ver) (refused : bool)
 | CAttrTag (tag : string) (v : ver) (is_attr : bool).
 
 Definition str_mem (s : string) (l : list string) : bool := existsb (String.eqb s) l.
@@ -81,5 +82,6 @@ Definition check_vcase (c : vcase) : bool :=
       if class_refused cls v then raised
       else negb raised && list_eqb String.eqb (filter (fun t => tag_allowed cls v t) set_tags) emitted
   | CFieldRead cls v tag accepted => Bool.eqb (negb (class_refused cls v) && tag_allowed cls v tag) accepted
+  | CStruct meth cls v refused => Bool.eqb (class_refused_in meth cls v) refused
   | CAttrTag tag v is_attr => Bool.eqb (attr_tag_allowed tag v) is_attr
   end.
